@@ -128,7 +128,7 @@ def run(tier, replay_path, t0):
                     if rk == "scan":
                         r.update({"start": 1, "del": rnd.random() < 0.5})
                     scen.append({"prefix": pre, "r": r, "ops": ops})
-        keep = set(range(len(SCRIPTED))) if tier == "thorough" else {0, 1, 4, 6, 9}
+        keep = set(range(len(SCRIPTED))) if tier == "thorough" else {0, 1, 4, 6, 7, 9}
         scen = [dict(x, scripted=True, modelled=(i + 1 if i < 8 else 0)) for i, x in enumerate(SCRIPTED) if i in keep] + scen
         setup = p["setup"]
     # pass 1: count the sections of R in each scenario (no schedules yet)
@@ -172,7 +172,7 @@ def run(tier, replay_path, t0):
             cause = "operation-or-block-mid-scan"
         else:
             cause = sig
-        key = "C20/%s/%s|%s" % (v["m"], e["r"], cause)
+        key = "C20/%s/%s|%s" % (v["m"], e["r"], cause if cause in (sig, "hang") else cause + "|" + sig)
         if key not in keys:
             keys[key] = {"scenario": {k: scen[e["b"]][k] for k in ("prefix", "r", "ops")}, "sched": e["sched"], "setup": setup,
                          "opres": e["opres"], "rres": e["rres"], "count": 0, "fields": detail, "opkinds": e["opkinds"]}
